@@ -370,6 +370,10 @@ def gen_ops(rng, tier):
         mk("reduce_sum", (6, 6, 1), 40, bits=16), mk("reduce_sum", (5, 7, 1), 33),
         mk("ew_add", (12, 12, 40), bits=32), mk("ew_add", (5, 3, 17), ifm2="scalar", bits=16, lut=True),
         mk("ew_abs", (12, 1, 40)), mk("ew_lrelu", (3, 11, 9), bits=16), mk("ew_min", (7, 7, 7), ifm2=(1, 1, 7)),
+        # scalar operand 0 / 0.0 (legal, and falsy in Python) on outputs large enough for blocks whose IFM buffer takes
+        # more than half of the banks: a scalar operand needs no IFM2 buffer, whatever its value
+        mk("ew_add", (32, 64, 9), ifm2="scalar"), mk("ew_add", (31, 64, 8), ifm2="scalar"), mk("ew_mul", (16, 48, 34), ifm2="scalar"),
+        mk("ew_min", (31, 64, 8), ifm2="scalar", bits=16), mk("ew_add", (32, 64, 9), ifm2="scalar", unsigned=True),
         mk("depthwise", (12, 12, 40), None, (4, 4, 2, 2, 2, 2), bits=16),
         mk("conv", (64, 64, 128), 64, (3, 3, 1, 1, 1, 1)), mk("ew_add", (100, 100, 200), lut=True),
         # one OFM row but a kernel taller than one row: the Conv1D accumulator saving must not apply
